@@ -141,6 +141,7 @@ var plans = map[string]*Plan{
 			return append(js, jobs("crashpt", 4, tierN(tier, 1, 6), "tier="+tier, time.Duration(tierN(tier, 10, 80))*time.Minute)...)
 		},
 		CrashSig: rengCrash("C10"),
+		RaceJobs: func() []Job { return jobs("reng", 2, 12, "", 60*time.Minute) },
 	},
 	"C12": {
 		Level: "exploration",
@@ -255,6 +256,7 @@ var plans = map[string]*Plan{
 			}
 			return "crash:" + crashClass(c), "the process running the rpc client/server died (" + c + ")"
 		},
+		RaceJobs: func() []Job { return jobs("rpcsim", 2, 12, "", 60*time.Minute) },
 	},
 	"C07": clusterPlan("C07", 6, 2, 16, 9, map[string]int64{"rebuild_cycles": 4, "promotions_checked": 4, "stored_images_compared": 8, "writes_acknowledged": 1000},
 		"clusters of real processes (in-process controller with the real remote factory and REST server; jiva replica + jiva sync-agent processes on their own loopback addresses; RF 2-3, volumes of 4-12 MiB) run kill/stop -> detach -> restart -> rebuild cycles under 1-3 foreground writers at three intensities, with pre-failure histories incl. user snapshots; a third of the rebuilds are interrupted (SIGKILL of the rebuilding replica at the Addreplica / syncFiles / reloadAndVerify log markers, with or without its sync agent) and some lose their source; "+
@@ -307,6 +309,9 @@ func crashClass(c string) string {
 // withCluster adds real-process cluster scenarios (engine E5) to a controller-engine plan.
 func withCluster(p *Plan, qw, tw, tc int, note string) *Plan {
 	inner := p.Jobs
+	if strings.Contains(p.Rule, "concurrent writer goroutines") {
+		p.RaceJobs = func() []Job { return jobs("ctlsim", 2, 60, "", 60*time.Minute) }
+	}
 	p.Rule += "; cross-check on real processes (cluster engine): " + note
 	p.Jobs = func(tier string) []Job {
 		js := inner(tier)
